@@ -370,6 +370,18 @@ def step (w : World) (line : String) : World × String :=
          (w, s!"{r} {!r}")
        | _, _, _, _ => (w, "bad-op"))
     | _ => (w, "bad-op")
+  | "eqshift" :: rest =>
+    -- the schedule of a history against the same schedule with every start time shifted by k
+    match splitOnTok rest ";" with
+    | [ia, ha, [k]] =>
+      (match parseInstSpec ia, (ints? ha).bind parseHist, k.toInt? with
+       | some a, some h1, some kk =>
+         let x := schedObjs a (replayHist a h1)
+         let y := x.map fun ms => ms.map fun o => { o with start := o.start + kk }
+         let r := schedEq x y
+         (w, s!"{r} {!r}")
+       | _, _, _ => (w, "bad-op"))
+    | _ => (w, "bad-op")
   | "rule" :: r :: rest =>
     match parseRule r with
     | some rule =>
